@@ -43,6 +43,15 @@ func VerifH_C20_Mux() {
 		nilPayload = true
 	}
 	_ = nilPayload
+	// the caller's payload may be a window of a larger buffer (spare capacity behind it): a handler that
+	// appends to its copy must not write into the caller's buffer
+	var backing []byte
+	var beyond byte
+	if !nilPayload && verifChoice("sparecap", 2) == 1 {
+		backing = append(append([]byte{}, orig.Payload...), verifNondetU8("beyond"), 0)
+		beyond = backing[pl]
+		orig.Payload = backing[:pl]
+	}
 	// pristine copy made by the harness, never handed out
 	keep := &Message{Topic: orig.Topic, ID: orig.ID, QoS: orig.QoS, Retain: orig.Retain, Dup: orig.Dup, Payload: append([]byte{}, orig.Payload...)}
 	nh := verifChoice("handlers", 3) + 1 // 1, 2 or 3 matching handlers
@@ -64,6 +73,10 @@ func VerifH_C20_Mux() {
 	verifReach("served")
 	verifAssert(seen == nh, "C20.mux_all_handlers_ran")
 	verifSameMsg(orig, keep, "C20.mux_caller_message_unchanged")
+	if backing != nil {
+		verifReach("spare-capacity")
+		verifAssert(backing[pl] == beyond, "C20.mux_callers_buffer_untouched")
+	}
 	// a later message is not affected either
 	later := &Message{Topic: keep.Topic, ID: keep.ID, QoS: keep.QoS, Retain: keep.Retain, Dup: keep.Dup, Payload: append([]byte{}, keep.Payload...)}
 	mux.Serve(later)
@@ -73,6 +86,13 @@ func VerifH_C20_Mux() {
 func VerifH_C20_Async() {
 	pl := verifChoice("plen", 3)
 	orig := verifMsg(pl)
+	var backing []byte
+	var beyond byte
+	if verifChoice("sparecap", 2) == 1 {
+		backing = append(append([]byte{}, orig.Payload...), verifNondetU8("beyond"), 0)
+		beyond = backing[pl]
+		orig.Payload = backing[:pl]
+	}
 	keep := &Message{Topic: orig.Topic, ID: orig.ID, QoS: orig.QoS, Retain: orig.Retain, Dup: orig.Dup, Payload: append([]byte{}, orig.Payload...)}
 	ran := 0
 	done := make(chan struct{}, 2)
@@ -97,6 +117,9 @@ func VerifH_C20_Async() {
 		done <- struct{}{}
 	}
 	<-done
+	if backing != nil {
+		verifAssert(backing[pl] == beyond, "C20.async_callers_buffer_untouched")
+	}
 	verifReach("async-ran")
 	verifLock()
 	verifAssert(ran == 1, "C20.async_handler_ran_once")
